@@ -17,7 +17,8 @@ CfgOf(c) == [ppqn |-> c.ppqn, tracks |-> c.tracks, pitLo |-> c.pitLo, pitHi |-> 
              values |-> RangeOf(c.values), bins |-> c.bins, tsLo |-> c.tsLo, tsHi |-> c.tsHi,
              running |-> c.running, fuseTrk |-> c.fuseTrk, fuseVal |-> c.fuseVal, fuseVel |-> c.fuseVel]
 PieceOf(p) == [tracks |-> [i \in DOMAIN p.tracks |-> RangeOf(p.tracks[i])], sigs |-> p.sigs, end |-> p.end, cap |-> p.cap, bars |-> p.bars]
-BinsOk(c) == /\ Len(c.bins) = c.nbins /\ c.bins[Len(c.bins)] = 127
+(* at most the configured number of bins (bins capped at the same value collapse), ascending, ending at the maximum *)
+BinsOk(c) == /\ Len(c.bins) >= 1 /\ Len(c.bins) <= c.nbins /\ c.bins[Len(c.bins)] = 127
              /\ \A i \in 1 .. (Len(c.bins) - 1) : c.bins[i] < c.bins[i + 1]
              /\ \A i \in DOMAIN c.bins : c.bins[i] >= 1
 (* output tracks are lists of notes [p, s, e, v]; marks = ticks of the bar marks; sigs = <<tick, n, d>> on track 1 *)
